@@ -44,7 +44,8 @@ def gen_plan(rng, tier):
         base = rng.choice([0.05, 0.2, 1.0])
         pol = {'kind': 'exponential', 'base': base, 'max': base * rng.choice([1, 2, 8, 50]), 'max_attempts': limit}
         if limit == 1100 or (limit is None and tier == 'thorough' and rng.random() < 0.3):
-            pol['base'], pol['max'], pol['long'] = 0.01, 0.02, True
+            # (base 0.0 is legal: the delay then never reaches the ceiling, and 0.0 * 2**1024 still overflows)
+            pol['base'], pol['max'], pol['long'] = rng.choice([0.01, 0.01, 0.0]), 0.02, True
     return {'cluster': default_cluster_spec(3), 'version': 4, 'policy': pol, 'crash_at': rng.choice([0.2, 0.5]),
             'second_crash': (None if pol.get('long') else rng.choice([None, 0.0, 0.3, 2.0])),
             'announce': rng.choice([None, 0.01]), 'strategy': gen_strategy(rng), 'time_jump_p': 0}
